@@ -99,6 +99,7 @@ func c05StepAppend(b *proxyIDRingBuffer, pre []proxyIDMapping, head, size int, s
 	verifReachIf(verifAnd(gap > 0, size > 0), "gap-fill")
 
 	b.Append(p, sh, task)
+	verifObserve("append", b.head, b.size, len(b.entries), b.startProxyID)
 
 	c05CheckInvariant(b, "append")
 	if size == 0 {
@@ -127,6 +128,7 @@ func c05StepAggregate(b *proxyIDRingBuffer, pre []proxyIDMapping, head, size int
 	verifReachIf(verifAnd(size > 0, w >= start+int64(size)), "watermark-above-range")
 
 	res, count := b.AggregateUpTo(w)
+	verifObserve("aggregate", count, len(res))
 
 	// expected count
 	exp := 0
@@ -176,6 +178,7 @@ func c05StepDiscard(b *proxyIDRingBuffer, pre []proxyIDMapping, head, size int, 
 	n := verifNondetInt("discard")
 	verifReachIf(verifAnd(n > size, size > 0), "discard-more-than-size")
 	b.Discard(n)
+	verifObserve("discard", b.head, b.size, b.startProxyID)
 	c05CheckInvariant(b, "discard")
 	m := 0
 	if n > 0 {
